@@ -13,6 +13,7 @@ Done == /\ Len(hist) = Depth /\ Mode # "table"
         /\ hist' = Append(hist, [op |-> "done"]) /\ UNCHANGED log
 GenNext == \/ Can /\ Mode = "pairs" /\ \E m1, m2 \in Msgs : Check(m1, m2)
            \/ Can /\ Mode = "log" /\ \E m \in Msgs : Receive(m)
+           \/ Can /\ Mode = "decode" /\ \E m \in Msgs, d \in Defects : Decode(m, d)
            \/ Done
 GenSpec == Init /\ [][GenNext]_vars
 Emit == (Mode = "table" /\ hist = <<>>) =>
